@@ -36,6 +36,27 @@ claim("C14", "abstract interpretation over char partition + who-may-push",
       "Decides the property for all key strings at the level of path components: exact image of the sanitizer closure over a finite partition of char, fallback-discipline obligations, "
       "and a who-may-push rule over every PathBuf::push/Path::join in the crate with operand-origin slices.", design="4/C14")
 
+claim("C01", "MIR must-pass-through + sibling agreement of header tables + dominance",
+      "Decides three structural clauses for every input: (1) every entry a consuming read counts as consumed (cursor advance, count decrement) is handed to the caller - must-pass-through "
+      "between the per-entry counter and the push, with offset-addressed-only edges derived from the code; read_next's cursor commits are followed by the return of the entry just read; "
+      "(2) the two encoders and seven decoders agree on the header tables (symbolic expressions reconstructed from MIR); (3) every Entry construction is dominated by the checksum-equal edge. "
+      "Ordering, once-only delivery across blocks and the planner/budget interaction are not decided.", design="4/C01")
+claim("C04", "MIR path rules over Ok/Err edges (NOEXIT, must-not-reach), error discipline",
+      "Decides for all inputs and failure points the shape conditions of 'failed appends leave no trace': no exit between sealing a block and installing its successor, rejections precede "
+      "every effect, publish stores are unreachable from failed writes/flushes and nothing can fail after a publish, error exits after the first effect pass rollback+unlock (infeasible exits tabled), "
+      "rollback restores the block, storage write results are not discarded, both encoders have the header-length guard, the batch flag guard is built right after the CAS. "
+      "Known findings are listed by key in known_findings.json.", design="4/C04")
+claim("C12", "MIR who-may-call tables + finite evaluation of the readiness predicate + control dependence",
+      "Decides who may delete files and request deletions, the exact readiness predicate of flush_check (evaluated over its sub-CFG on a finite abstract domain), the dominance conditions "
+      "of every consumed-mark site and the idempotence of marks (control dependence of the counter increment on an atomic RMW of the per-block flag). 'Durably consumed' under AtLeastOnce is not decided.",
+      design="4/C12")
+claim("C15", "MIR who-may-write + edge dominance + dataflow roles",
+      "Decides the in-process clause for all inputs: writers of the count map, increments only after a successful append by exactly the appended number, decrements only under "
+      "checkpoint (and stateful) by exactly the number of parsed entries, deliveries and decrements paired by must-pass-through. The recount after restart is not decided.", design="4/C15")
+claim("C16", "MIR sibling agreement via symbolic expression reconstruction",
+      "Decides agreement of the sibling implementations: the two entry encoders (field sources, serializer, prefix encoding, ranges, guard), the three read-range builders and exhaustive "
+      "two-arm backend dispatch. Equality of results over operation sequences is not decided.", design="4/C16")
+
 ALL = ["C%02d" % i for i in range(1, 26)]
 PENDING = "check under construction in this round (planned in DESIGN.md section 4); not claimed until its rules exist and are calibrated"
 for p in ALL:
